@@ -25,6 +25,17 @@ pub fn init() -> (File, Capture) {
 }
 
 impl Capture {
+    /// Forget everything captured so far (used by a forked child, which shares
+    /// the capture file with its parent and with earlier children).
+    pub fn reset(&mut self) {
+        let _ = std::io::stdout().flush();
+        unsafe {
+            libc::ftruncate(self.fd, 0);
+            libc::lseek(1, 0, libc::SEEK_SET);
+        }
+        self.off = 0;
+    }
+
     /// Everything written to stdout since the previous call.
     pub fn take(&mut self) -> String {
         let _ = std::io::stdout().flush();
